@@ -84,7 +84,7 @@ class %s(Equation):
 
 
 # ============================================================== generators
-def gen_stepper_source(rng, uid, nstage, full=False):
+def gen_stepper_source(rng, uid, nstage, full=False, resize=False):
     """Random stepper inside the documented subset: typed / strided
     properties, instance attributes with non-default values, t and dt,
     py_stageN hooks; every stage also counts (stamp) and logs the t it saw."""
@@ -144,10 +144,12 @@ def gen_stepper_source(rng, uid, nstage, full=False):
                      c())
         L.append('')
     for k in range(1, nstage + 1):
-        if rng.random() < 0.3:
+        if rng.random() < (0.7 if resize else 0.3):
             L.append('    def py_stage%d(self, dst, t, dt):' % k)
             L.append('        _c04.py_hook(self.wid, dst, %d, t, dt)' % k)
             L.append('        dst.vp[:] = dst.vp*0.5 + t + %s*dt' % c())
+            if resize and rng.random() < 0.7:
+                L.append('        _c04.resize_hook(dst, %d)' % k)
             L.append('')
     text = '\n'.join(L) + '\n'
     text = text.replace('from checks import c04 as _c04',
@@ -156,13 +158,32 @@ def gen_stepper_source(rng, uid, nstage, full=False):
     return name, text
 
 
+RESIZES = [0]
+
+
+def resize_hook(dst, stage):
+    """What an inlet / outlet-like py_stage hook does: the number of real
+    particles of its own array changes right before the stage loop."""
+    RESIZES[0] += 1
+    n = dst.get_number_of_particles(real=True)
+    if stage % 2 == 1 and n > 6:
+        dst.remove_particles(np.array([1, n - 2]))
+    elif n > 2:
+        extra = dst.extract_particles(np.array([0, n - 1]))
+        extra.get('x')[:] += 0.013
+        extra.get('y')[:] -= 0.007
+        extra.get('stamp')[:] = 0
+        dst.append_parray(extra)
+
+
 def py_hook(wid, dst, stage, t, dt):
     w = WORLDS[wid]
     w['events'].append(('py_stage', dst.name, stage, float(t), float(dt),
                         digest(w['pas']) if w['exact'] else ''))
 
 
-def gen_integrator_source(rng, uid, nstage, nsets, periodic):
+def gen_integrator_source(rng, uid, nstage, nsets, periodic,
+                          resizing=False):
     name = 'VInt%s' % uid
     L = ['from pysph.sph.integrator import Integrator', '', '',
          'class %s(Integrator):' % name,
@@ -170,7 +191,9 @@ def gen_integrator_source(rng, uid, nstage, nsets, periodic):
     body = []
     if rng.random() < 0.7:
         body.append('self.initialize()')
-    fresh = True        # neighbour search in line with the ghosts
+    # is the neighbour search in line with the particle rows?  A step may
+    # follow one that ended with update_domain(), so not at the start
+    fresh = False
     fr = sorted(float(x) for x in rng.uniform(0.1, 1.0, size=nstage))
     fr[-1] = 1.0
     for k in range(1, nstage + 1):
@@ -178,7 +201,7 @@ def gen_integrator_source(rng, uid, nstage, nsets, periodic):
         if r < 0.75:
             i = int(rng.integers(nsets))
             r2 = rng.random()
-            if r2 < 0.2 and fresh:
+            if r2 < 0.2 and fresh and not resizing:
                 body.append('self.compute_accelerations(%d, update_nnps='
                             'False)' % i)
             elif r2 < 0.4 and i == 0:
@@ -227,12 +250,14 @@ def describe(seed, k, tier):
         nstage = int(rng.integers(1, 6))
         nsets = int(rng.integers(1, 4))
         narr = int(rng.integers(1, 4))
-        r_dom = rng.random()
-        domain = 'periodic' if r_dom < 0.5 else (
-            'mirror' if r_dom < 0.8 else 'none')
+        # configuration classes rotate with the program index so that every
+        # run of 16 generated programs meets all of them
+        j = k // 2
+        domain = ('periodic', 'mirror', 'none', 'periodic', 'mirror')[j % 5]
         periodic = domain != 'none'     # ghosts are re-created by the domain
+        resizing = (j % 3 == 1)
         iname, isrc = gen_integrator_source(rng, 'k%d' % k, nstage, nsets,
-                                            periodic)
+                                            periodic, resizing)
         stp = []
         for a in range(narr):
             if a and rng.random() < 0.3:
@@ -241,13 +266,14 @@ def describe(seed, k, tier):
                 continue
             sname, ssrc = gen_stepper_source(
                 rng, 'k%da%d' % (k, a), nstage,
-                full=(a == 0 and rng.random() < 0.8))
+                full=(a == 0 and rng.random() < 0.8), resize=resizing)
             stp.append(dict(name=sname, src=ssrc,
                             fa=float(rng.uniform(0.5, 2)),
                             fb=float(rng.uniform(0.5, 2))))
         d.update(kind='generated', integrator=dict(name=iname, src=isrc),
                  steppers=stp, nsets=nsets, periodic=periodic, exact=True,
-                 domain=domain, fixed_h=bool(rng.random() < 0.5))
+                 domain=domain, fixed_h=bool(j % 2 == 0),
+                 resizing=resizing)
     else:
         # shipped integrator x shipped steppers (different one per array)
         j = (k // 2)
@@ -644,6 +670,8 @@ def run_program(desc, mon):
             break
     for k_, v in ref.calls.items():
         mon[k_] = mon.get(k_, 0) + v
+    mon['resize_hook_calls'] = mon.get('resize_hook_calls', 0) + RESIZES[0]
+    RESIZES[0] = 0
     mon['events'] = mon.get('events', 0) + len(A['events'])
     mon['py_stage_events'] = mon.get('py_stage_events', 0) + sum(
         1 for e in A['events'] if e[0] == 'py_stage')
@@ -715,7 +743,8 @@ def run(tier):
                         ('remote_rows', 10), ('py_stage_events', 1),
                         ('stale_computes', 1), ('domain_mirror', 2),
                         ('domain_periodic', 2), ('fixed_h_programs', 2),
-                        ('mirror_fixed_h_programs', 1)):
+                        ('mirror_fixed_h_programs', 1),
+                        ('resize_hook_calls', 4)):
         if c.get(need, 0) < least:
             v.inconclusive_because('%s = %d (< %d)' % (need, c.get(need, 0),
                                                        least))
